@@ -3,7 +3,7 @@ import ast
 
 from .index import Inconclusive, norm
 from .interp import Interp, Policy, show, show_lit, walk_effects, K, NONE, subterms, mentions
-from .callgraph import CallGraph, Escape, _own_nodes, local_names, norm_locals, raise_key
+from .callgraph import CallGraph, Escape, _own_nodes, local_names, norm_locals, raise_key, resolve_once
 
 ALGEBRA_ENTRIES = ['_signatures:merge', '_signatures:embed', '_signatures:mask', '_signatures:_mask', '_signatures:forwards']
 PUBLIC_OPS = ['_signatures:merge', '_signatures:embed', '_signatures:mask', '_signatures:forwards',
@@ -985,9 +985,9 @@ def rule_user_value_operations(check, rule):
                 want, what = ['Exception'], 'getattr() on a resolved object runs its properties'
             elif isinstance(c.func, ast.Attribute) and c.func.attr in ('bind_partial', 'bind') and any(isinstance(a, ast.Starred) for a in c.args):
                 want, what = ['TypeError'], 'binding what the object is bound to'
-            elif isinstance(c.func, ast.Attribute) and c.func.attr in ('extend', 'update') and len(c.args) == 1 and isinstance(c.args[0], ast.Call) \
-                    and not isinstance(c.args[0].func, ast.Attribute):
-                callee = c.args[0].func
+            elif isinstance(c.func, ast.Attribute) and c.func.attr in ('extend', 'update') and len(c.args) == 1 \
+                    and isinstance(resolve_once(fi.node, c.args[0]), ast.Call) and not isinstance(resolve_once(fi.node, c.args[0]).func, ast.Attribute):
+                callee = resolve_once(fi.node, c.args[0]).func
                 nested = [x for x in _own_nodes(fi.node) if isinstance(x, ast.FunctionDef) and isinstance(callee, ast.Name) and x.name == callee.id]
                 resolves = isinstance(callee, ast.Name) and (callee.id == 'resolve_name' or any(
                     isinstance(y, ast.Call) and norm(y.func) == 'resolve_name' for x in nested for y in ast.walk(x)))
